@@ -15,7 +15,7 @@ open TonVerif TonVerif.Model TonVerif.Model.Hashmap TonVerif.Spec.Hashmap TonVer
 open TonVerif.Generated.HashmapSrc TonVerif.Proofs.SrcHashmap TonVerif.Proofs.SrcHashmapSer
 open TonVerif.Generated (HashmapGlue.set_int_key HashmapGlue.set_int HashmapGlue.set_bytes HashmapGlue.set_str HashmapGlue.set_addr
   HashmapGlue.set_hashed HashmapGlue.set_ks HashmapGlue.serialize HashmapGlue.hm_parse HashmapGlue.from_cell HashmapGlue.load_dict
-  HashmapGlue.preload_dict HashmapGlue.load_hashmap HashmapGlue.load_hashmap_aug)
+  HashmapGlue.preload_dict HashmapGlue.load_hashmap HashmapGlue.load_hashmap_aug HashmapGlue.load_hashmap_aug_e)
 
 /-! ### HashMap.set_int_key / set -/
 
@@ -414,5 +414,51 @@ theorem load_hashmap_aug_eq {X Y : Type} (D : AugDec X Y) (fuel : Nat) (c : Cell
   unfold HashmapGlue.load_hashmap_aug
   simp only [Option.bind_eq_bind, Option.pure_def]
   cases parse_hashmap_aug (xdOf D) (ydOf D) fuel (Py.beginParse c) (n : Int) <;> rfl
+
+/-- rendering of the model's result of `load_hashmap_aug_e` on an ordinary slice -/
+def outAugE {X Y : Type} : AugE X Y → Option (Option (List (Nat × X) × List Y))
+  | .err => none
+  | .none => some none
+  | .cell => none
+  | .empty y => some (some ([], [y]))
+  | .dict kv ex => some (some (kv, ex))
+
+/-- REGENERATED `Slice.load_hashmap_aug_e(n, x, y)` on an ORDINARY slice (on a special slice the method returns the cell itself: its first
+statement, checked by the translator) = the hand model's `loadHashmapAugE`: `ahme_empty$0 extra:Y` gives `({}, [extra])`;
+`ahme_root$1 root:^(HashmapAug n X Y) extra:Y` gives what `parse_hashmap_aug` returns for the root, after the top-level extra was
+read from the slice (so it must be readable) -/
+theorem load_hashmap_aug_e_eq {X Y : Type} (D : AugDec X Y) (fuel : Nat) (bits : Bits) (refs : List Cell) (n : Nat) (hf : 2 * n + 2 ≤ fuel) :
+    (HashmapGlue.load_hashmap_aug_e (xdOf D) (ydOf D) fuel ⟨-1, bits, refs⟩ (n : Int)).map (·.1) =
+      outAugE (loadHashmapAugE D (-1) bits refs n) := by
+  unfold HashmapGlue.load_hashmap_aug_e loadHashmapAugE
+  simp only [loadBit_eq, loadRef_eq, Option.bind_eq_bind, Option.pure_def, ne_eq, not_true_eq_false, if_false]
+  rcases bits with _ | ⟨b, rest⟩
+  · simp [outAugE]
+  rcases b with _ | _
+  · simp only [withBits, Option.bind_some, Bool.false_eq_true, if_false, ydOf]
+    rcases hy : D.decY (rest, refs) with _ | ⟨y, sl⟩ <;> simp [outAugE]
+  rcases refs with _ | ⟨c, more⟩
+  · simp [outAugE, withBits]
+  have h := parse_hashmap_aug_eq D fuel c n hf
+  simp only [withBits, Option.bind_some, if_true, ydOf]
+  rcases hp : parse_hashmap_aug (xdOf D) (ydOf D) fuel (Py.beginParse c) (n : Int) with _ | ⟨r, s2⟩
+  · rw [hp] at h
+    simp only [Option.map_none] at h
+    cases hq : parseHashmapAug D c n with
+    | err => simp [outAugE]
+    | none => rw [hq] at h; simp [outAug] at h
+    | dict r' => rw [hq] at h; simp [outAug] at h
+  · rw [hp] at h
+    simp only [Option.map_some] at h
+    simp only [Option.bind_some]
+    cases hq : parseHashmapAug D c n with
+    | err => rw [hq] at h; simp [outAug] at h
+    | none =>
+      rw [hq] at h; simp only [outAug, Option.some.injEq] at h; subst h
+      rcases hy : D.decY (rest, more) with _ | ⟨y, sl⟩ <;> simp [outAugE]
+    | dict r' =>
+      rw [hq] at h; simp only [outAug, Option.some.injEq] at h; subst h
+      obtain ⟨kv, ex⟩ := r'
+      rcases hy : D.decY (rest, more) with _ | ⟨y, sl⟩ <;> simp [outAugE]
 
 end TonVerif.Proofs.SrcHashmapGlue
